@@ -23,6 +23,7 @@ Step ==
                [] e.ev = "SysTransportDrop" -> IF e.side = "s" THEN YServerDrop(y, e.k) ELSE YClientGone(y, e.k)
                [] e.ev = "SysCall"          -> YCall(y, e.c, e.k, e.dl)
                [] e.ev = "SysWireOut"       -> IF e.side = "c" /\ e.kind = "req" /\ e.ok THEN YSend(y, e.c, e.k, e.id)
+                                               ELSE IF e.side = "c" /\ e.kind = "cancel" /\ e.ok THEN YCancelOut(y, e.k, e.id)
                                                ELSE IF e.side = "s" /\ e.ok THEN YServerOut(y, e.k, e.id)
                                                ELSE y
                [] e.ev = "SysHandlerStart"  -> YHandlerStart(y, e.k, e.c, e.inc)
@@ -42,6 +43,7 @@ TSpec == TInit /\ [][Step]_tvars
 Report(name, ok, why) == ok \/ PrintT(<<"REPORT", name, scn, l - 1, why>>)
 Verdict_C01 == Report("Inv_C01sys", y.bad01 = {}, y.bad01)
 Verdict_C02 == Report("Inv_C02sys", y.bad02 = {}, y.bad02)
+Verdict_C03 == Report("Inv_C03sys", y.bad03 = {}, y.bad03)
 Verdict_C04 == Report("Inv_C04sys", y.bad04 = {}, y.bad04)
 Verdict_C05 == Report("Inv_C05sys", y.bad05 = {}, y.bad05)
 Verdict_C06 == Report("Inv_C06sys", y.bad06 = {}, y.bad06)
@@ -49,6 +51,6 @@ Verdict_C08 == Verdict_C01
 Verdict_C10 == Report("Inv_C10sys", y.bad10 = {}, y.bad10)
 Verdict_C12 == Report("Inv_C12sys", y.bad12 = {}, y.bad12)
 Verdict_C13 == Report("Inv_C13sys", y.bad13 = {}, y.bad13)
-Verdict_All == Verdict_C01 /\ Verdict_C02 /\ Verdict_C04 /\ Verdict_C05 /\ Verdict_C06 /\ Verdict_C10 /\ Verdict_C12 /\ Verdict_C13
+Verdict_All == Verdict_C01 /\ Verdict_C02 /\ Verdict_C03 /\ Verdict_C04 /\ Verdict_C05 /\ Verdict_C06 /\ Verdict_C10 /\ Verdict_C12 /\ Verdict_C13
 Accepted == l = Len(Rec) + 1 => PrintT(<<"ACCEPTED", Len(Rec)>>)
 =============================================================================
